@@ -8,9 +8,13 @@ package main
 
 import (
 	"bytes"
+	"encoding/json"
 	"fmt"
 	"go/token"
+	"io"
 	"math/rand"
+	"os"
+	"os/exec"
 	"sort"
 	"strconv"
 
@@ -85,6 +89,8 @@ func (u *sysUniverse) apply(a SysAct) *sysObs {
 		u.cells = append(u.cells, jen.Id(a.N))
 	case "NewQual":
 		u.cells = append(u.cells, jen.Qual(a.P, a.N))
+	case "NewNull":
+		u.cells = append(u.cells, jen.Null())
 	case "AppId":
 		cell(a.C).Id(a.N)
 	case "AppDot":
@@ -96,10 +102,24 @@ func (u *sysUniverse) apply(a SysAct) *sysObs {
 		for _, r := range a.Refs {
 			ops = append(ops, cell(r))
 		}
-		if a.N == "call" {
+		fn := func(g *jen.Group) {
+			for _, op := range ops {
+				g.Add(op)
+			}
+		}
+		switch {
+		case a.N == "call" && a.D == 0:
 			cell(a.C).Call(ops...)
-		} else {
+		case a.N == "call":
+			cell(a.C).CallFunc(fn)
+		case a.N == "index" && a.D == 0:
 			cell(a.C).Index(ops...)
+		case a.N == "index":
+			cell(a.C).IndexFunc(fn)
+		case a.N == "list" && a.D == 0:
+			cell(a.C).List(ops...)
+		default:
+			cell(a.C).ListFunc(fn)
 		}
 	case "AddRef":
 		cell(a.C).Add(cell(a.D))
@@ -147,6 +167,46 @@ func codeToks(src []byte) []string {
 	return out
 }
 
+// freshTwins replays, in a NEW PROCESS, only the heap operations and File f's own calls of history h and returns the
+// status + output hash of every observation made with f, keyed by the index of the action.  A process-wide cache or
+// table that other Files (or earlier behaviours) have filled cannot have influenced these.
+func freshTwins(h []SysAct, f int) map[int]string {
+	b, _ := json.Marshal(h)
+	cmd := exec.Command(os.Args[0], "system-twin", strconv.Itoa(f))
+	cmd.Stdin = bytes.NewReader(b)
+	cmd.Env = os.Environ()
+	out, err := cmd.Output()
+	if err != nil {
+		fatal("system-twin failed: " + err.Error())
+	}
+	res := map[int]string{}
+	if err := json.Unmarshal(out, &res); err != nil {
+		fatal("system-twin output: " + err.Error())
+	}
+	return res
+}
+
+func cmdSystemTwin(args []string) {
+	f, _ := strconv.Atoi(args[0])
+	var h []SysAct
+	in, _ := io.ReadAll(os.Stdin)
+	if err := json.Unmarshal(in, &h); err != nil {
+		fatal(err)
+	}
+	u := &sysUniverse{}
+	res := map[int]string{}
+	for k, a := range h {
+		if a.A == "Plain" || (a.F != 0 && a.F != f) {
+			continue
+		}
+		if o := u.apply(a); o != nil {
+			res[k] = o.status + ":" + Hash(o.out)
+		}
+	}
+	b, _ := json.Marshal(res)
+	os.Stdout.Write(b)
+}
+
 func ReplaySystem(tw *TraceWriter, id int, h []SysAct) {
 	if len(h) == 0 || h[0].A != "Files" {
 		fatal("system history does not start with Files")
@@ -158,6 +218,13 @@ func ReplaySystem(tw *TraceWriter, id int, h []SysAct) {
 		syms[sysSym(p)] = p
 	}
 	nobs := 0
+	fresh := map[int]map[int]string{} // file -> action index -> status:hash, from a fresh process (sampled behaviours)
+	if id%5 == 0 {
+		for f := 1; f <= len(h[0].Files); f++ {
+			fresh[f] = freshTwins(h, f)
+		}
+		tw.Stats["behaviours_with_fresh_process_twins"]++
+	}
 	for k, a := range h {
 		o := u.apply(a)
 		refs := a.Refs
@@ -222,6 +289,9 @@ func ReplaySystem(tw *TraceWriter, id int, h []SysAct) {
 			rec["out"] = Hash(o.out)
 			rec["nbytes"] = len(o.out)
 			rec["twin"] = to != nil && to.status == o.status && bytes.Equal(to.out, o.out)
+			if ft, ok := fresh[a.F]; ok && a.A != "Plain" {
+				rec["twin"] = rec["twin"].(bool) && ft[k] == o.status+":"+Hash(o.out)
+			}
 			if a.A == "Render" {
 				rec["parses"] = o.status != "nil" || nf || ParsesAsFile(o.out)
 			} else {
@@ -312,7 +382,10 @@ func randomSystemHistory(r *rand.Rand, nops int) []SysAct {
 		p := sysPaths[r.Intn(len(sysPaths))]
 		switch k := r.Intn(21); {
 		case k < 2 || nc == 0:
-			switch r.Intn(3) {
+			switch r.Intn(4) {
+			case 3:
+				newCell()
+				h = append(h, SysAct{A: "NewNull"})
 			case 0:
 				newCell()
 				h = append(h, SysAct{A: "NewVar", N: fresh()})
@@ -338,7 +411,7 @@ func randomSystemHistory(r *rand.Rand, nops int) []SysAct {
 			if r.Intn(2) == 0 {
 				h = append(h, SysAct{A: "AddRef", C: c, D: d})
 			} else {
-				h = append(h, SysAct{A: "AppGroup", C: c, N: []string{"call", "index"}[r.Intn(2)], Refs: []int{d}})
+				h = append(h, SysAct{A: "AppGroup", C: c, D: r.Intn(2), N: []string{"call", "index", "list"}[r.Intn(3)], Refs: []int{d}})
 			}
 		case k < 10:
 			c := 1 + r.Intn(nc)
